@@ -151,7 +151,12 @@ func moduleBranchStart(c *FC) *ssa.BasicBlock {
 			succ = ii.in.Block().Succs[1]
 		}
 		// the recipient test that opens the mint branch: its module-side successor dominates the mint
-		if len(mints) == 1 && (succ == mints[0].Block() || succ.Dominates(mints[0].Block())) {
+		// (a mint made inside a new helper is represented by fn's call of that helper)
+		var mintBlock *ssa.BasicBlock
+		if len(mints) == 1 {
+			mintBlock = c.siteInFn(mints[0]).Block()
+		}
+		if len(mints) == 1 && (succ == mintBlock || succ.Dominates(mintBlock)) {
 			if best == nil || best.Dominates(succ) {
 				best = succ
 			}
@@ -430,9 +435,10 @@ func runC04(p *Prog, r *Report, tier string) {
 		c.requireCut("G-cut", "mint-only-for-module-recipient", []Atom{A("bytes.Equal(M.Recipient,types.PaddedModuleAddress)")}, []ssa.Instruction{mint})
 		if start := moduleBranchStart(c); start != nil {
 			fi := p.info(c.fn)
-			leak := false
+			via := c.viaAnchors([]ssa.Instruction{mint})
+			leak := len(via) == 0
 			for _, s := range c.successReturns() {
-				if fi.blockReachesAvoiding(start, s, []ssa.Instruction{mint}) {
+				if fi.blockReachesAvoiding(start, s, via) {
 					leak = true
 				}
 			}
